@@ -436,7 +436,8 @@ pub(crate) type TPort<'a, L> = Port<'a, L, AnyAccept, AnyRng, RecClock, RecFilte
 macro_rules! mk_port {
     ($port:ident, $lock:expr, $state:expr, $lifecycle:expr) => {
         let port_identity__ = any_port_identity();
-        let mut $port: Port<'_, _, AnyAccept, AnyRng, RecClock, RecFilter, _> = Port {
+        // ManuallyDrop: the drop glue of a Port (foreign-master table) is not part of any property and costs symex time
+        let mut $port: core::mem::ManuallyDrop<Port<'_, _, AnyAccept, AnyRng, RecClock, RecFilter, _>> = core::mem::ManuallyDrop::new(Port {
             config: any_port_config(),
             filter_config: (),
             clock: RecClock::new(),
@@ -455,7 +456,7 @@ macro_rules! mk_port {
             filter: RecFilter { serial: 0, n_meas: 0, n_update: 0, last: None },
             mean_delay: any_opt_duration(),
             peer_delay_state: any_valid_peer_delay_state(),
-        };
+        });
     };
 }
 pub(crate) use mk_port;
@@ -551,73 +552,36 @@ pub(crate) fn instance_view(s: &PtpInstanceState) -> InstanceView {
 pub(crate) use super::super::actions::verif_act::{ActionSummary, Frame};
 pub(crate) use super::super::actions::verif_act as act;
 
-#[derive(Clone, Copy, PartialEq, Debug)]
-pub(crate) struct SpecFrame {
-    pub(crate) message_type: u8,
-    pub(crate) version: u8,
-    pub(crate) minor_version: u8,
-    pub(crate) declared_len: usize,
-    pub(crate) domain: u8,
-    pub(crate) sdo_id: u16,
-    pub(crate) flags0: u8,
-    pub(crate) flags1: u8,
-    pub(crate) correction: i64,
-    pub(crate) source: PortIdentity,
-    pub(crate) sequence_id: u16,
-    pub(crate) log_interval: i8,
-    /// first Timestamp of the body (octets 34..44): (seconds, nanoseconds)
-    pub(crate) ts: (u64, u32),
-    /// PortIdentity at octets 44..54 (Delay_Resp, Pdelay_Resp, Pdelay_Resp_Follow_Up)
-    pub(crate) body_identity: PortIdentity,
-}
-fn rd16(b: &[u8; 64], o: usize) -> u16 { ((b[o] as u16) << 8) | b[o + 1] as u16 }
-fn rd_identity(b: &[u8; 64], o: usize) -> PortIdentity {
-    PortIdentity {
-        clock_identity: crate::config::ClockIdentity([b[o], b[o + 1], b[o + 2], b[o + 3], b[o + 4], b[o + 5], b[o + 6], b[o + 7]]),
-        port_number: rd16(b, o + 8),
-    }
-}
-/// Clause 13.3 Table 35 (header) and the leading Timestamp / PortIdentity of the body. By the contracts of C04
-/// (header / bodies / framing units) a frame whose messageType is defined, whose messageLength equals the
-/// emitted length and 34 + body size of that type, decodes under the library's own parser.
-pub(crate) fn spec_frame(f: &Frame) -> SpecFrame {
-    let b = &f.head;
-    SpecFrame {
-        message_type: b[0] & 0x0f,
-        version: b[1] & 0x0f,
-        minor_version: b[1] >> 4,
-        declared_len: rd16(b, 2) as usize,
-        domain: b[4],
-        sdo_id: (((b[0] >> 4) as u16) << 8) | b[5] as u16,
-        flags0: b[6],
-        flags1: b[7],
-        correction: (((b[8] as u64) << 56) | ((b[9] as u64) << 48) | ((b[10] as u64) << 40) | ((b[11] as u64) << 32)
-            | ((b[12] as u64) << 24) | ((b[13] as u64) << 16) | ((b[14] as u64) << 8) | (b[15] as u64)) as i64,
-        source: rd_identity(b, 20),
-        sequence_id: rd16(b, 30),
-        log_interval: b[33] as i8,
-        ts: (
-            ((b[34] as u64) << 40) | ((b[35] as u64) << 32) | ((b[36] as u64) << 24) | ((b[37] as u64) << 16) | ((b[38] as u64) << 8) | (b[39] as u64),
-            ((b[40] as u32) << 24) | ((b[41] as u32) << 16) | ((b[42] as u32) << 8) | (b[43] as u32),
-        ),
-        body_identity: rd_identity(b, 44),
-    }
-}
-/// Clause 13: 34-octet header + body size of the message type
+pub(crate) use crate::datastructures::messages::verif_kani_msg as msg;
+use crate::datastructures::messages::MessageBody;
+
+/// Clause 13: 34-octet header + body size of the message type (Table 36 codes)
 pub(crate) fn spec_frame_size(message_type: u8) -> usize {
     match message_type { 0x0 | 0x1 | 0x8 => 44, 0x2 | 0x3 | 0x9 | 0xa => 54, 0xb => 64, 0xc => 44, 0xd => 48, _ => 0 }
 }
-/// well-formed fixed-size frame: defined type, declared length == emitted length == size of that type
-pub(crate) fn frame_well_formed(f: &Frame, message_type: u8) -> bool {
-    let s = spec_frame(f);
-    s.message_type == message_type && s.version == 2 && f.len == s.declared_len && f.len == spec_frame_size(message_type)
-        && f.len <= MAX_DATA_LEN
+pub(crate) fn body_type(b: &MessageBody) -> u8 {
+    match b {
+        MessageBody::Sync(_) => 0x0, MessageBody::DelayReq(_) => 0x1, MessageBody::PDelayReq(_) => 0x2,
+        MessageBody::PDelayResp(_) => 0x3, MessageBody::FollowUp(_) => 0x8, MessageBody::DelayResp(_) => 0x9,
+        MessageBody::PDelayRespFollowUp(_) => 0xa, MessageBody::Announce(_) => 0xb, MessageBody::Signaling(_) => 0xc,
+        MessageBody::Management(_) => 0xd,
+    }
+}
+/// the one message serialized during the call: it has the expected type, no TLVs, PTP version 2, and the emitted
+/// frame has exactly its wire size (<= MAX_DATA_LEN) -- by the C04 contracts such a frame decodes under the
+/// library's own parser to this message
+pub(crate) fn emitted_message(f: &Frame, message_type: u8) -> (Header, MessageBody) {
+    let (h, b, tlv_len) = msg::last_serialized();
+    assert!(body_type(&b) == message_type && tlv_len == 0);
+    assert!(f.len == spec_frame_size(message_type) && f.len <= MAX_DATA_LEN);
+    (h, b)
 }
 
 /// run a handler and return the summary of the action list it built and returned
 macro_rules! run_actions {
     ($call:expr) => {{
         act::begin();
+        msg::reset_serialized();
         let it = $call;
         act::taken(it)
     }};
